@@ -546,6 +546,39 @@ example : ∃ (s : Store) (G0 : Graph Nat) (doc : Doc Nat), StoreInv s ∧ s.ext
       ⟨3, [("GraphID", .str "g"), ("Class", .str "Component"), ("NodeID", .str "b"), ("n", .str "5")]⟩],
      [⟨3, 1, [("Class", .str "has")]⟩], 4⟩, _, _, by decide, rfl, by decide, by decide, by decide, rfl, by decide⟩
 
+/-- the document `serialize_graph` emits for an extracted graph -/
+def serializeG (G : Graph Nat) (f : Fmt) : Except String (Option (Doc Nat)) :=
+  match f with
+  | .graphml =>
+    match toGraphML G with
+    | .error e => .error e
+    | .ok d =>
+      match toNeo4j d with
+      | .error e => .error e
+      | .ok d' => .ok (some (.graphml d'))
+  | .json => .ok (some (.json (toJSON G)))
+
+/-- **`reserialize_stable` (partial).**  Serialising the imported copy is the serialiser applied to
+    the renamed copy of the original graph (same attribute dicts, `GraphID` stamped, edges under
+    the injective renaming `k ↦ start_id + position(k)`).  *Missing for the full statement:* that
+    `toGraphML` / `toJSON` commute with that renaming (same key table, same data, ids renamed) —
+    established only differentially (the harness compares the re-serialised document's content). -/
+theorem reserialize_stable_partial (s : Store) (hs : StoreInv s) (g g' : Val) (G0 : Graph Nat)
+    (hG : s.extract g = some G0) (hid : HasNodeIds G0)
+    (f : Fmt) (hk : f = .graphml → KeysNodup G0) (hr : f = .json → NoReserved G0)
+    (doc : Doc Nat) (hser : serialize s g f = .ok (some doc)) (f' : Fmt) :
+    serialize s g f' = serializeG G0 f' ∧
+    serialize (importString s doc g').2 g' f' = serializeG (stampedCopy G0 s.nextId g') f' := by
+  obtain ⟨_, h2⟩ := roundtrip_import_string s hs g g' G0 hG hid f hk hr doc hser
+  constructor
+  · unfold serialize serializeG; rw [hG]; cases f' <;> rfl
+  · unfold serialize serializeG; rw [h2]; cases f' <;> rfl
+
+/-- the renaming used by the copies is injective on the node keys -/
+theorem copy_renaming_injective [DecidableEq κ] (G : Graph κ) (start : Nat) :
+    ∀ x ∈ G.keys, ∀ y ∈ G.keys, start + G.keys.idxOf x = start + G.keys.idxOf y → x = y :=
+  fun x hx y hy e => idxOf_inj G.keys x hx y hy (by omega)
+
 /-! ### importing touches no other graph -/
 
 theorem merge_frame (s1 : Store) (hlt : ∀ n ∈ s1.nodes, n.iid < s1.nextId) (g'' : Val) (T : Graph Nat)
